@@ -109,5 +109,5 @@ def subchecks():
     return [
         SubCheck(name="nan_fault_every_iteration", mode="enum", enumerate=enum_faults, run_case=run_case,
                  shards={"quick": 8, "thorough": 16}, clear_every=3,
-                 doc="every fault position k x origin, solve vs eager reference with the same injection"),
+                 exhaustive={"quick": False, "thorough": True}, doc="every fault position k x origin, solve vs eager reference with the same injection"),
     ]
